@@ -12,7 +12,8 @@ from . import s4
 
 ID = "C10"
 RULE = (
-    "for every world (n cards, each with any style over 2 contests, sample numbers in every order of the plan) a "
+    "for every world (n cards, each with any style over 2 contests, sample numbers in every order of the plan, without and with "
+    "phantom records at the odd list positions) a "
     "breadth-first search over audit histories: event = raise the sample size of one non-exhausted contest (thorough: any "
     "non-empty subset) by one, then either REDRAW (fresh consistent_sampling) or CONTINUE (sampled_cvr_indices = previous "
     "result, thresholds kept on the same contests); the successor state (sizes, selected list, thresholds) is computed by "
@@ -52,8 +53,11 @@ def bounds(tier):
 IDS = s4.CONTESTS[:2]
 
 
+PHANTOM_WORLD = {"on": False}  # world dimension: cards at odd list positions are phantom records
+
+
 def build(styles, nums, sizes, thr, test="alpha"):
-    cards = s4.make_cards(styles, nums)
+    cards = s4.make_cards(styles, nums, phantoms=[i % 2 == 1 for i in range(len(styles))] if PHANTOM_WORLD["on"] else None)
     t = NonnegMean.alpha_mart if test == "alpha" else NonnegMean.kaplan_kolmogorov
     cons = s4.make_contests(IDS, sizes, cards_per={c: max(1, sum(1 for s in styles if c in s)) for c in IDS}, test=t, risk_limit=0.5)
     for c in IDS:
@@ -74,7 +78,24 @@ def step(styles, nums, state, newsizes, mode):
             out = CVR.consistent_sampling(cards, cons, sampled_cvr_indices=list(sel))
     except Exception as e:  # noqa
         return ("exc", f"{type(e).__name__}: {str(e)[:60]}")
-    return (tuple(newsizes), tuple(int(i) for i in out), tuple(cons[c].sample_threshold for c in IDS))
+    new = (tuple(newsizes), tuple(int(i) for i in out), tuple(cons[c].sample_threshold for c in IDS))
+    # the same round on contests that carry what set_p_values left behind (assertions, all confirmed): which cards are
+    # drawn is a matter of sample numbers and sizes only
+    cards2, cons2 = build(styles, nums, dict(zip(IDS, newsizes)), dict(zip(IDS, thr)))
+    for i in sel:
+        cards2[i].sampled = True
+    for c in IDS:
+        cons2[c].assertions = Assertion.make_plurality_assertions(cons2[c], winner=["A"], loser=["B"], test=cons2[c].test, estim=cons2[c].estim)
+        for a in cons2[c].assertions.values():
+            a.proved, a.p_value, a.margin = True, 0.01, 0.5
+    try:
+        out2 = CVR.consistent_sampling(cards2, cons2) if mode == "redraw" else CVR.consistent_sampling(cards2, cons2, sampled_cvr_indices=list(sel))
+        new2 = (tuple(newsizes), tuple(int(i) for i in out2), tuple(cons2[c].sample_threshold for c in IDS))
+    except Exception as e:  # noqa
+        new2 = ("exc", f"{type(e).__name__}: {str(e)[:60]}")
+    if new2 != new:
+        return ("depends-on-confirmation", f"with all assertions confirmed the round gives {new2[1] if new2[0] != 'exc' else new2}, otherwise {list(new[1])}")
+    return new
 
 
 def data_ids(styles, nums, state, mvr_world=None, test="alpha", cons=None, cards=None):
@@ -151,6 +172,8 @@ def mvr_worlds(n, limit):
 
 def judge_transition(styles, nums, prev, new, newsizes, mode, cache, pl, stats=None):
     out = []
+    if new[0] == "depends-on-confirmation":
+        return [(f"C10|{mode}|selection-depends-on-confirmation-state", f"{mode}: {new[1]} (previous selection {list(prev[1])}, sizes {list(prev[0])} -> {list(newsizes)})")]
     if new[0] == "exc":
         return [(f"C10|{mode}|exception|{new[1].split(':')[0]}", f"{mode}: consistent_sampling raised {new[1]} (previous selection {list(prev[1])}, sizes {list(prev[0])} -> {list(newsizes)})")]
     sizes, sel, thr = new
@@ -247,19 +270,19 @@ def explore_world(styles, nums, pl, rec):
                     if any(order.index(i) < last and i not in st[1] for i in range(n)):
                         rec.vac("transitions_after_skipped_card")
                         rec.outcome((styles, nums, st, ev, mode))
-                if new[0] != "exc" and any(len(styles[i]) == 2 for i in new[1]):
+                if new[0] not in ("exc", "depends-on-confirmation") and any(len(styles[i]) == 2 for i in new[1]):
                     rec.vac("transitions_card_two_contests")
                     rec.outcome((styles, nums, st, ev, mode))
                 for key, what in v:
                     rec.violate(key, what, {"styles": [list(s) for s in styles], "nums": list(nums), "prev": [list(st[0]), list(st[1]), list(st[2])],
-                                            "newsizes": list(ns), "mode": mode})
-                if new[0] != "exc" and not v and new not in seen:
+                                            "newsizes": list(ns), "mode": mode, "phantoms": PHANTOM_WORLD["on"]})
+                if new[0] not in ("exc", "depends-on-confirmation") and not v and new not in seen:
                     seen.add(new)
                     frontier.append(new)
                     rec.state()
                 if rec.want_sample((styles, nums, st, ev, mode)):
                     rec.sample({"styles": [list(s) for s in styles], "sample_nums": list(nums), "state(sizes,selected,thresholds)": [list(st[0]), list(st[1]), list(st[2])],
-                                "event": f"raise {[IDS[i] for i in ev]} then {mode}", "successor": None if new[0] == "exc" else [list(new[0]), list(new[1]), list(new[2])]})
+                                "event": f"raise {[IDS[i] for i in ev]} then {mode}", "successor": None if new[0] in ("exc", "depends-on-confirmation") else [list(new[0]), list(new[1]), list(new[2])]})
         if exhausted:
             rec.trace()
     rec.vac("continue_rounds_stalled_below_request(diagnostic)", stats.get("stalled", 0))
@@ -279,7 +302,14 @@ def worlds(pl):
 def run_shard(sh, rec):
     pl, ws = sh
     for styles, nums in ws:
-        explore_world(styles, nums, pl, rec)
+        for ph in (False, True):
+            if ph and len(styles) < 2:
+                continue
+            PHANTOM_WORLD["on"] = ph
+            if ph:
+                rec.vac("worlds_with_phantom_cards")
+            explore_world(styles, nums, pl, rec)
+    PHANTOM_WORLD["on"] = False
 
 
 def explore(tier, seed):
@@ -300,6 +330,7 @@ def run_case(case):
         return c10_tla.run_case(case)
     styles = [tuple(s) for s in case["styles"]]
     nums = tuple(case["nums"])
+    PHANTOM_WORLD["on"] = bool(case.get("phantoms"))
     prev = (tuple(case["prev"][0]), tuple(case["prev"][1]), tuple(case["prev"][2]))
     new = step(styles, nums, prev, tuple(case["newsizes"]), case["mode"])
     return judge_transition(styles, nums, prev, new, tuple(case["newsizes"]), case["mode"], {}, plan("thorough"))
